@@ -254,9 +254,22 @@ impl Node {
     /// no attempts to guard against that.
     fn clone_with_subtree(&self) -> Rc<Self> {
         // The clone is not inserted anywhere yet; its descendants point to their cloned parents.
+        let data = self.data.clone();
+        if let NodeData::Element {
+            ref template_contents,
+            ..
+        } = data
+        {
+            // The contents of a template are part of what gets cloned, not shared with the original.
+            let contents = template_contents
+                .borrow()
+                .as_ref()
+                .map(|contents| contents.clone_with_subtree());
+            *template_contents.borrow_mut() = contents;
+        }
         let clone = Rc::new(Self {
             parent: Cell::new(None),
-            data: self.data.clone(),
+            data,
             children: RefCell::new(Vec::new()),
         });
         for child in self.children.borrow().iter() {
